@@ -11,3 +11,4 @@ pub mod codestream;
 pub mod imggen;
 pub mod container;
 pub mod dctref;
+pub mod anim;
